@@ -15,4 +15,11 @@ if ! cargo build --offline --profile verif >"$LOG" 2>&1; then
   exit 2
 fi
 rm -f "$LOG"
+if [ "$TIER" = "thorough" ] && [ $# -eq 0 ] && { [ "$ID" = "C01" ] || [ "$ID" = "C02" ]; }; then
+  /verif/harness/target/verif/verif check "$ID" --tier "$TIER"; rc=$?
+  [ $rc -eq 0 ] || exit $rc
+  # coverage-guided supplement (E6); its findings are re-judged by the harness oracle
+  /verif/tools/fuzz.sh "$ID" "${VERIF_FUZZ_SECONDS:-120}"
+  exit $?
+fi
 exec /verif/harness/target/verif/verif check "$ID" --tier "$TIER" "$@"
